@@ -584,7 +584,8 @@ func k4(r *rng.R, i int, o *out.W) {
 			ps = append(ps, fmt.Sprintf("(mkAP false false false %s %s %s)", pt(0, 0), pt(0, 0), cq.F(0)))
 			continue
 		}
-		same := qd[5] == d[5] && qd[6] == d[6] && qd[7] == d[7]
+		relEq := func(a, b float64) bool { return math.Abs(a-b) <= math.Abs(b)*0x1p-40 } // ArcTo may rescale radii by 1 + a few ulp
+		same := relEq(qd[5], d[5]) && relEq(qd[6], d[6]) && qd[7] == d[7]
 		large, sweep := qd[8] == 1 || qd[8] == 3, qd[8] == 2 || qd[8] == 3
 		ps = append(ps, fmt.Sprintf("(mkAP %s %s %s %s %s %s)", cq.Bool(same), cq.Bool(large), cq.Bool(sweep), pt(qd[1], qd[2]), pt(qd[9], qd[10]), cq.F(sp.Length())))
 	}
